@@ -248,11 +248,36 @@ def run(ctx: Ctx) -> None:
     for i in (0, n_exh // 2, n_p2 - 1, len(pairs) - 1):
         if 0 <= i < len(pairs):
             ctx.sample(slim(pairs[i][0]))
+    # ---------------------------------------------------------------- (e) the filtering pass itself
+    # every combination of holds / fails / cannot-be-evaluated over two statements with up to three
+    # assertions each (MC_AssertFilter), through the real __remove_non_holding_assertions
+    from harness.adapters import assert_filter  # noqa: PLC0415
+
+    fcases = ctx.behaviours("MC_AssertFilter")
+    ftraces = [assert_filter.run_case(c) for c in fcases]
+    fverd = ctx.validate("AssertFilterTrace", ftraces)
+    for idx, bad in sorted(fverd.items()):
+        ev = ftraces[idx]["ev"][0]
+        for clause, _ in bad:
+            kinds = "+".join(sorted(set(ev["s1"]) | set(ev["s2"])))
+            ctx.bad(clause, f"C21/{clause}/filter/{kinds}",
+                    f"outcomes of the filtering execution {ev['s1']} / {ev['s2']}: kept assertions {ev['kept1']} / {ev['kept2']} "
+                    f"{ev['error']}", trace=ftraces[idx], behaviour={"family": "filter", "case": fcases[idx]})
+    ctx.notes["filter_cases"] = len(fcases)
+    ctx.evaluations += len(ftraces)
 
 
 def replay(ctx: Ctx, rec: dict) -> int:
     b = rec["behaviour"]
     fam = b["family"]
+    if fam == "filter":
+        from harness.adapters import assert_filter  # noqa: PLC0415
+
+        tr = assert_filter.run_case(b["case"])
+        print(tr)
+        v = ctx.validate("AssertFilterTrace", [tr])
+        print("VIOLATION property=C21 replay=(this)" if v else "OK")
+        return 1 if v else 0
     if fam == "sel":
         evs = [ad.replay_select(b["n"], b["m"], b["viol"], b["lay"])]
     elif fam == "score":
